@@ -43,7 +43,7 @@ def main(tier, seed):
     chk = Check("C14", tier, seed)
     chk.assumptions = list(ASSUMPTIONS)
     c14.obligations(chk)
-    if tier == "thorough":
+    if tier in ("quick", "thorough"):      # the replay on the real code takes < 1 s: run it in both tiers (never counted as proved)
         fails, n, d = c14_concrete.search(stop_at=3)
         chk.bounded.append({"name": "bounded cross-check: string pool x 5 carriers x type pool on the real code",
                             "evaluations": n, "distinct_nontrivial": d, "failures": len(fails),
